@@ -111,6 +111,40 @@ class Call:
     def generics(self):
         return self.callee.get("generics") or []
 
+    @property
+    def macros(self):
+        return self.term.get("macros") or []
+
+    PANIC_FNS = ("core::panicking::panic", "core::panicking::panic_fmt", "core::panicking::panic_display",
+                 "core::panicking::unreachable_display", "core::panicking::panic_explicit",
+                 "std::rt::begin_panic", "core::panicking::panic_nounwind", "std::rt::panic_fmt",
+                 "core::panicking::panic_const", "core::option::unwrap_failed",
+                 "core::result::unwrap_failed", "core::option::expect_failed")
+
+    def is_panic(self):
+        d = self.target_def or ""
+        return self.target is None and (d.startswith("core::panicking::") or d.startswith("std::rt::")
+                                        or "panic" in d)
+
+    def is_explicit_panic(self):
+        """a panic that is not the failure arm of an assertion macro: panic!, unreachable!, todo!,
+        unimplemented!"""
+        if not self.is_panic():
+            return False
+        ms = self.macros
+        if any(m.rstrip("!").endswith(("assert", "assert_eq", "assert_ne", "debug_assert",
+                                        "debug_assert_eq", "debug_assert_ne")) or "pumpkin_assert" in m
+               for m in ms):
+            return False
+        return any(m.rstrip("!") in ("panic", "unreachable", "todo", "unimplemented") for m in ms)
+
+    def panic_kind(self):
+        for m in reversed(self.macros):
+            k = m.rstrip("!")
+            if k in ("panic", "unreachable", "todo", "unimplemented"):
+                return k
+        return None
+
     def is_method(self, name, owner=None):
         """name matches and (optionally) the self type / trait / path mentions `owner`."""
         if self.name != name:
